@@ -14,9 +14,10 @@ from vf.sem import pyeval
 
 ID = "C05"
 RULE = (
-    "Generated modules with 1-3 single-return helpers (def, def with docstring, name = lambda; 1-3 parameters of kind "
+    "Generated modules with 1-3 helpers (def, def with docstring, name = lambda, lambda handed through a call, def built by a factory with free "
+    "names, defs that are NOT a single return (annotated assignment / two statements) or have a keyword-only parameter; 1-3 parameters of kind "
     "number / sequence / element, optional defaults) whose bodies are drawn from: a bare parameter, the second parameter, "
-    "unary/arithmetic/conditional over parameters, attribute of a parameter, nested lambdas and comprehensions re-using a "
+    "unary/arithmetic/conditional over parameters, attribute of a parameter, a constant of the module, nested lambdas and comprehensions re-using a "
     "parameter name, an explicitly called inner lambda, calls to earlier helpers (1-3 deep), tuples; called from a lambda "
     "passed to Select with positional / keyword / re-ordered / mixed / default-omitting call shapes, with argument "
     "expressions that mention names also bound inside the helper (outer binders named like helper parameters and like the "
@@ -26,7 +27,9 @@ RULE = (
 ASSUMPTIONS = [
     "The reference value is what the real lambda returns on a sample element; the emitted lambda is evaluated by CPython "
     "with only those helper names bound that still occur in it as free names (helpers left as calls by name).",
-    "Helper bodies are closed over their parameters and other helpers (helpers capturing module constants are not generated).",
+    "A name captured by a helper (module constant, factory variable, further helper) may stay in the emitted lambda only if "
+    "it belongs to a helper scope other than the query's module; it is then read in the helper's scope. A constant of the "
+    "query's own module must not be left as a free name (no back end can know it).",
 ]
 BUDGET = {"quick": (6, 800), "thorough": (16, 6000)}
 
@@ -124,8 +127,16 @@ def _case(draw):
                 d = str(draw(st.integers(1, 5)))
             params.append([nm, kd, d])
         style = draw(st.sampled_from(["def", "def", "lambda", "defdoc", "lambda-arg", "lambda-decoy"]))
+        nparams = [nm for nm, kd in zip(names, kinds) if kd == "N"]
+        if want == "N" and nparams and draw(st.integers(0, 5)) == 0:
+            # helpers that are NOT a single return statement (must stay calls by name) / have a keyword-only parameter
+            style = draw(st.sampled_from(["def-annassign", "def-two-lines", "def-kwonly", "def-kwonly"]))
         closure = None
-        if style in ("def", "defdoc") and want == "N" and draw(st.integers(0, 3)) == 0:
+        if style in ("def", "defdoc", "lambda") and want == "N" and draw(st.integers(0, 5)) == 0:
+            # the helper uses a constant of its own module (the module of the query): it must not be left as a free name
+            closure = {"kind": "modconst", "name": f"K{i}", "value": draw(st.integers(5, 9))}
+            body = f"({body}) + K{i}"
+        if closure is None and style in ("def", "defdoc") and want == "N" and draw(st.integers(0, 3)) == 0:
             # the helper lives in another scope (a factory) and has a free name of its own; the module that holds the query
             # defines the same name with another meaning
             if draw(st.booleans()):
@@ -165,6 +176,8 @@ def _case(draw):
             call = ", ".join([args[0][1]] + [f"{n}={a}" for n, a, _ in args[1:]])
         else:
             call = ", ".join(a for _, a, _ in args)
+        if h["style"] == "def-kwonly" and draw(st.booleans()):
+            call = (call + ", " if call else "") + f"kw_={draw(st.integers(1, 4))}"
         expr = f"{h['name']}({call})"
         if in_nested:
             expr = f"{p}.xs.Select(lambda {inner}: {expr})"
@@ -181,12 +194,23 @@ def module_text(case):
     lines = ["def _keep(f):\n    return f"]
     for h in case["helpers"]:
         ps = ", ".join(n if d is None else f"{n}={d}" for n, _, d in h["params"])
-        if h["style"] == "lambda":
+        if h.get("closure") and h["closure"]["kind"] == "modconst":
+            c = h["closure"]
+            hd = f"{h['name']} = lambda {ps}: {h['body']}" if h["style"] == "lambda" else f"def {h['name']}({ps}):\n    return {h['body']}"
+            lines.append(f"{c['name']} = {c['value']}\n{hd}")
+        elif h["style"] == "lambda":
             lines.append(f"{h['name']} = lambda {ps}: {h['body']}")
         elif h["style"] == "lambda-arg":  # a lambda helper written as the argument of a call: its source is recoverable
             lines.append(f"{h['name']} = _keep(lambda {ps}: {h['body']})")
         elif h["style"] == "lambda-decoy":  # an unrelated lambda with the same parameter list on the line above the helper
             lines.append(f"_decoy_{h['name']} = _keep(lambda {ps}: 12345)\n{h['name']} = lambda {ps}: {h['body']}")
+        elif h["style"] == "def-annassign":
+            a0 = next(n for n, k, _ in h["params"] if k == "N")
+            lines.append(f"def {h['name']}({ps}):\n    {a0}: float = abs({a0}) + 1\n    return {h['body']}")
+        elif h["style"] == "def-two-lines":
+            lines.append(f"def {h['name']}({ps}):\n    t_ = {h['body']}\n    return t_ * 2")
+        elif h["style"] == "def-kwonly":
+            lines.append(f"def {h['name']}({ps}, *, kw_=3):\n    return ({h['body']}) + kw_")
         elif h.get("closure"):
             c = h["closure"]
             doc = "        \"a helper\"\n" if h["style"] == "defdoc" else ""
@@ -253,7 +277,7 @@ def check(case) -> Result:
 
         helper_scope = {}
         for h in case["helpers"]:
-            if h.get("closure"):
+            if h.get("closure") and h["closure"]["kind"] != "modconst":
                 helper_scope.update(inspect.getclosurevars(getattr(mod, h["name"])).nonlocals)
         stray = free - hnames - set(pyeval.PRELUDE) - {"range"} - set(helper_scope)
         if helper_scope:
